@@ -2,6 +2,7 @@ use std::io;
 use std::io::{BufRead, Read};
 use crate::ext::string_ext::StringExt;
 use crate::json::property::{JSONProperty, JSONValue};
+use crate::json::read_utf8_char;
 use crate::symbol::SYMBOL;
 
 #[cfg(test)]
@@ -118,14 +119,14 @@ impl JSON {
                 let bytes_to_read = 1;
                 let mut char_buffer = vec![bytes_to_read];
 
-                let boxed_read = cursor.read_exact(&mut char_buffer);
+                let boxed_read = read_utf8_char(&mut cursor, &mut char_buffer);
                 if boxed_read.is_err() {
                     let error = boxed_read.err().unwrap().to_string();
                     let message = format!("error at byte {} of {} bytes, message: {} ", bytes_read, total_bytes, error);
                     return Err(message);
                 }
                 boxed_read.unwrap();
-                bytes_read = bytes_read + bytes_to_read as i128;
+                bytes_read = bytes_read + char_buffer.len() as i128;
                 let boxed_char = String::from_utf8(char_buffer);
                 if boxed_char.is_err() {
                     let error = boxed_char.err().unwrap().to_string();
@@ -163,14 +164,14 @@ impl JSON {
                 let mut char_buffer = vec![bytes_to_read];
                 comma_delimiter_read_already = false;
 
-                let boxed_read = cursor.read_exact(&mut char_buffer);
+                let boxed_read = read_utf8_char(&mut cursor, &mut char_buffer);
                 if boxed_read.is_err() {
                     let error = boxed_read.err().unwrap().to_string();
                     let message = format!("error at byte {} of {} bytes, message: {} ", bytes_read, total_bytes, error);
                     return Err(message);
                 }
                 boxed_read.unwrap();
-                bytes_read = bytes_read + bytes_to_read as i128;
+                bytes_read = bytes_read + char_buffer.len() as i128;
                 let boxed_char = String::from_utf8(char_buffer);
                 if boxed_char.is_err() {
                     let error = boxed_char.err().unwrap().to_string();
@@ -200,14 +201,14 @@ impl JSON {
                         while not_end_of_string_property_value {
 
                             char_buffer = vec![bytes_to_read];
-                            let boxed_read = cursor.read_exact(&mut char_buffer);
+                            let boxed_read = read_utf8_char(&mut cursor, &mut char_buffer);
                             if boxed_read.is_err() {
                                 let error = boxed_read.err().unwrap().to_string();
                                 let message = format!("error at byte {} of {} bytes, message: {} ", bytes_read, total_bytes, error);
                                 return Err(message);
                             }
                             boxed_read.unwrap();
-                            bytes_read = bytes_read + bytes_to_read as i128;
+                            bytes_read = bytes_read + char_buffer.len() as i128;
                             let boxed_parse = String::from_utf8(char_buffer);
                             if boxed_parse.is_err() {
                                 let error = boxed_parse.err().unwrap().to_string();
@@ -436,14 +437,14 @@ impl JSON {
 
                             let byte = 0;
                             let mut char_buffer = vec![byte];
-                            let length = char_buffer.len();
-                            let boxed_read = cursor.read_exact(&mut char_buffer);
+                            let boxed_read = read_utf8_char(&mut cursor, &mut char_buffer);
                             if boxed_read.is_err() {
                                 let error = boxed_read.err().unwrap().to_string();
                                 let message = format!("error at byte {} of {} bytes, message: {} ", bytes_read, total_bytes, error);
                                 return Err(message);
                             }
                             boxed_read.unwrap();
+                            let length = char_buffer.len();
                             bytes_read = bytes_read + length as i128;
                             let boxed_parse = String::from_utf8(char_buffer);
                             if boxed_parse.is_err() {
@@ -513,14 +514,14 @@ impl JSON {
 
                             let byte = 0;
                             let mut char_buffer = vec![byte];
-                            let length = char_buffer.len();
-                            let boxed_read = cursor.read_exact(&mut char_buffer);
+                            let boxed_read = read_utf8_char(&mut cursor, &mut char_buffer);
                             if boxed_read.is_err() {
                                 let error = boxed_read.err().unwrap().to_string();
                                 let message = format!("error at byte {} of {} bytes, message: {} ", bytes_read, total_bytes, error);
                                 return Err(message);
                             }
                             boxed_read.unwrap();
+                            let length = char_buffer.len();
                             bytes_read = bytes_read + length as i128;
                             let boxed_parse = String::from_utf8(char_buffer);
                             if boxed_parse.is_err() {
@@ -599,12 +600,12 @@ impl JSON {
 
                             let byte = 0;
                             let mut char_buffer = vec![byte];
-                            let length = char_buffer.len();
-                            let boxed_read = cursor.read_exact(&mut char_buffer);
+                            let boxed_read = read_utf8_char(&mut cursor, &mut char_buffer);
                             if boxed_read.is_err() {
                                 let message = boxed_read.err().unwrap().to_string();
                                 return Err(message);
                             }
+                            let length = char_buffer.len();
                             bytes_read = bytes_read + length as i128;
                             let boxed_parse = String::from_utf8(char_buffer);
                             if boxed_parse.is_err() {
